@@ -177,6 +177,14 @@ def run(ctx):
         for kk in (-1, -3, -7):
             for ty in (int, np.int8, np.int64, np.float64):
                 jobs.append((name, (ty(kk),)))
+    # huge angles (the period is irrational in floating point: any reduction modulo 2 pi / 4 pi must be exact) and angles
+    # carried by narrower numpy float types (values exactly representable there)
+    for name in ROT:
+        for th in (1e9, -7e12, 1e15, -2.5e15, 1e16, 3e17, 123456789012.5):
+            jobs.append((name, (th,)))
+        for ty in (np.float16, np.float32):
+            for v in (1.0, 0.125, 2.5, -3.0, 0.5, 6.25):
+                jobs.append((name, (ty(v),)))
     jobs += [("CZ", ()), ("CZ_Heralded", ()), ("CCZ", ())]
     jobs += [("CNOT", (t,)) for t in (0, 1)] + [("CNOT_Heralded", (t,)) for t in (0, 1)]
     jobs += [("CCNOT", (t,)) for t in (0, 1, 2)]
